@@ -122,7 +122,7 @@ def sys_jobs(hs, tier):
     sj = [wmmlib.sys_stop_job(hs, 0, 1, "l1,S0"), wmmlib.sys_stop_job(hs, 0, 2, "l1,l2,S0"), wmmlib.sys_stop_job(hs, 0, 0, "l1,l2,l3,l4,S0"),
           wmmlib.sys_stop_job(hs, 0, 1, "l1,x0,l2,S0")]
     if tier != "quick":
-        sj += [wmmlib.sys_stop_job(hs, 1, 1, "l1,S0", "l1", deadline=1500), wmmlib.sys_stop_job(hs, 0, 3, "l1,l2,l3,S0", deadline=1500), wmmlib.sys_stop_job(hs, 1, 1, "l1,S0", "l1,x0", deadline=1500),
+        sj += [wmmlib.sys_stop_job(hs, 1, 1, "l1,S0", "l1", deadline=1500), wmmlib.sys_stop_job(hs, 0, 3, "l1,l2,l3,S0", deadline=1500), wmmlib.sys_stop_job(hs, 1, 0, "l1,S0", "l1,x0", deadline=1500),
                wmmlib.sys_stop_job(hs, 0, 2, "l1,x0,l2,S0", deadline=1500)]
     return sj
 
